@@ -447,9 +447,10 @@ class SymExec(object):
         if isinstance(n, ast.Attribute):
             b = E(n.value)
             if n.attr in self.watch_attrs:
-                st.events.append(('getattr', b, n.attr, n))
+                ev_ = ('getattr', b, n.attr, n)
+                st.events.append(ev_)
                 if self._guard:
-                    st.data.setdefault('guards', {})[id(n)] = tuple(self._guard)
+                    st.data.setdefault('eguards', {})[id(ev_)] = (ev_, tuple(self._guard))
             if b[0] == 'record':
                 for k, v in b[2]:
                     if k == n.attr:
@@ -490,9 +491,10 @@ class SymExec(object):
                 ft = format_call(f[1][1], tuple(args), kws)
                 if ft is not None:
                     return ft
-            st.events.append(('call', t, n))
+            ev_ = ('call', t, n)
+            st.events.append(ev_)
             if self._guard:
-                st.data.setdefault('guards', {})[id(n)] = tuple(self._guard)
+                st.data.setdefault('eguards', {})[id(ev_)] = (ev_, tuple(self._guard))
             if self.on_call is not None:
                 r = self.on_call(st, t, n)
                 if r is not None:
@@ -638,9 +640,14 @@ class SymExec(object):
                 self._fn_by_id = {id(n): n for n in ast.walk(self.modtree) if isinstance(n, ast.FunctionDef)}
             fd = self._fn_by_id.get(f[2])
         elif f[0] == 'name':
-            for s_ in self.modtree.body:
-                if isinstance(s_, ast.FunctionDef) and s_.name == f[1]:
-                    fd = s_
+            # lexical lookup: enclosing function bodies (sibling closures), then the module
+            scope = getattr(self._stack[-1], '_parent', None)
+            while scope is not None and fd is None:
+                if isinstance(scope, (ast.FunctionDef, ast.Module)):
+                    for s_ in scope.body:
+                        if isinstance(s_, ast.FunctionDef) and s_.name == f[1]:
+                            fd = s_
+                scope = getattr(scope, '_parent', None)
         elif f[0] == 'attr' and f[1][0] == 'name':
             owner = None
             if f[1][1] in ('self', 'cls') and self.cls is not None:
@@ -736,15 +743,21 @@ class SymExec(object):
                     if a_ is None or b_ is None:
                         return None
                     return ('ifexp', c, a_, b_)
-                if isinstance(s_, ast.Assign) and len(s_.targets) == 1 and isinstance(s_.targets[0], (ast.Name, ast.Tuple)):
-                    self.bind(s_.targets[0], self.ev(s_.value, sub), sub, s_)
+                if isinstance(s_, ast.Assign):
+                    v = self.ev(s_.value, sub)
+                    for t_ in s_.targets:
+                        self.bind(t_, v, sub, s_)
                     continue
-                if isinstance(s_, ast.AnnAssign) and isinstance(s_.target, ast.Name):
+                if isinstance(s_, ast.AnnAssign):
                     if s_.value is not None:
                         self.bind(s_.target, self.ev(s_.value, sub), sub, s_)
                     continue
                 if isinstance(s_, ast.Expr) and isinstance(s_.value, ast.Constant):
                     continue        # docstring
+                if isinstance(s_, ast.Expr):
+                    v = self.ev(s_.value, sub)
+                    st.events.append(('expr', v, s_))
+                    continue
                 if isinstance(s_, (ast.Pass,)):
                     continue
                 if isinstance(s_, ast.Assert):
@@ -1216,6 +1229,102 @@ class SymExec(object):
         for st2, o in self.block(list(body), st):
             out.append((st2, o))
         return out
+
+
+def alternatives(t, limit=64):
+    """split a term on the conditional expressions inside it: -> [(guards, term without ifexp)] where guards is a tuple
+    of (condition, polarity).  `x if c else y` written in an expression and the same choice written as an if
+    statement then produce the same (condition, value) pairs."""
+    def go(t):
+        if not isinstance(t, tuple):
+            return [((), t)]
+        if t and t[0] == 'ifexp':
+            out = []
+            for gc, c in go(t[1]):
+                for ga, a in go(t[2]):
+                    out.append((gc + ((c, True),) + ga, a))
+                for gb, b in go(t[3]):
+                    out.append((gc + ((c, False),) + gb, b))
+            return out
+        combos = [((), ())]
+        for x in t:
+            nxt = []
+            for g0, acc in combos:
+                for g1, v in go(x):
+                    nxt.append((g0 + g1, acc + (v,)))
+            combos = nxt
+            if len(combos) > limit:
+                raise ValueError('too many conditional alternatives')
+        return combos
+    res = []
+    for g, v in go(t):
+        # drop contradictory guard sets (same condition with both polarities)
+        pos = {c for c, p in g if p}
+        neg_ = {c for c, p in g if not p}
+        if pos & neg_:
+            continue
+        res.append((tuple(dict.fromkeys(g)), v))
+    return res
+
+
+def path_values(paths):
+    """[(conds, value)] over the returning paths, with conditional expressions in the value split into alternatives"""
+    out = []
+    for st, o in paths:
+        if o != 'return' or st.ret is None:
+            continue
+        base = [(c, p) for c, p, _ in st.conds]
+        for g, v in alternatives(st.ret):
+            out.append((base + list(g), v))
+    return out
+
+
+def self_call_pred(fn):
+    """predicate on call-target terms: does the term denote `fn` itself (closure name, self.method, Class.method)?"""
+    cls = getattr(fn, '_parent', None)
+    cname = cls.name if isinstance(cls, ast.ClassDef) else None
+
+    def pred(f):
+        if f[0] == 'func':
+            return f[2] == id(fn)
+        if f == ('name', fn.name):
+            return cname is None
+        if f[0] == 'attr' and f[2] == fn.name and cname is not None:
+            return f[1] in (('name', 'self'), ('name', 'cls'), ('name', cname))
+        return False
+    return pred
+
+
+def mark_self_calls(t, fn):
+    """replace the target of every recursive call of fn inside term t by ('selfcall',)"""
+    pred = self_call_pred(fn)
+    if isinstance(t, tuple):
+        if t and t[0] == 'call' and pred(t[1]):
+            return ('call', ('selfcall',)) + tuple(mark_self_calls(x, fn) for x in t[2:])
+        return tuple(mark_self_calls(x, fn) for x in t)
+    return t
+
+
+def own_params(fn):
+    """positional parameters without the receiver of a method"""
+    ps = [a.arg for a in fn.args.posonlyargs + fn.args.args]
+    if isinstance(getattr(fn, '_parent', None), ast.ClassDef) and 'staticmethod' not in [src(d) for d in fn.decorator_list] and ps:
+        ps = ps[1:]
+    return ps
+
+
+def guards_of(st, ev):
+    """(condition, polarity) pairs of the conditional expressions / short-circuit operators / inlined helper branches
+    under which the event `ev` (a 'getattr' or 'call' event of st.events) was evaluated"""
+    if ev and ev[0] == 'in-comp':
+        for k, (e0, g) in st.data.get('eguards', {}).items():
+            if tuple(e0) == tuple(ev[1:]):
+                return g
+        return ()
+    r = st.data.get('eguards', {}).get(id(ev))
+    if r is not None and r[0] is ev:
+        return r[1]
+    return ()
 
 
 def terms_of(st):
